@@ -276,6 +276,30 @@ def t3_pmm(sx):
     return exercise(sx, w, "tt3:pmm-timing", max_cmds=100)
 
 
+def t3_poll(sx, with_sys):
+    """well-framed polling answers of every length: the reader polls for
+    system 12FCh itself when the SENSF_RES carried no (or another) system
+    code; cards may append request data whatever the request code was"""
+    w = worlds.T3World(sx, 4, 3, 5, 20, fill=0x40)
+    sim = w.sim
+    delta = sx.pick("poll_len", [-9, -1, 0, 1, 2, 3, 4])
+    orig = sim.execute
+
+    def execute(cmd):
+        if len(cmd) == 6 and cmd[1] == 0x00:
+            body = list(sim.idm) + list(sim.pmm)
+            if delta < 0:
+                body = body[:delta]
+            else:
+                body = body + list(sx.bytes("poll_extra", delta))
+            return sx.mkbytes([2 + len(body), 0x01] + body, True)
+        return orig(cmd)
+    sim.execute = execute
+    w.with_sys = with_sys
+    w.target = lambda: tags.tt3_target(w.sim, with_sys)
+    return exercise(sx, w, "tt3:polling-answer", max_cmds=60)
+
+
 def t3_gone(sx, n):
     w = worlds.T3World(sx, 4, 3, 5, n, fill=0x40)
     return exercise(sx, w, "tt3:goes-silent", silence=True)
@@ -426,6 +450,14 @@ def t4_long_read(sx):
     return exercise(sx, w, "tt4:long-read-binary", max_cmds=400)
 
 
+def t4_mle_big(sx):
+    """a standard-conformant CC that announces MLe above 256 (up to FFFFh is
+    legal) with an NDEF file longer than one short READ BINARY"""
+    mle = sx.pick("mle", [0x00FF, 0x0100, 0x0101, 0x0FFF, 0xFFFF])
+    w = worlds.T4World(sx, 0x20, mle, 255, 600, 400, fill=0x41)
+    return exercise(sx, w, "tt4:mle-above-256", max_cmds=400)
+
+
 def t4_v3_big(sx):
     """mapping version 3, NLEN above 65535, a card that serves any offset"""
     w = worlds.T4World(sx, 0x30, 255, 255, 16, 3, fill=0x41)
@@ -494,6 +526,8 @@ def partitions(tier):
                 add("t3:attr:%s:%d:%s" % (cs, nb, ws), "t3_attr", checksum_ok=cs, nblocks=nb, with_sys=ws)
     add("t3:gone", "t3_gone", n=40)
     add("t3:pmm", "t3_pmm")
+    add("t3:poll:nosys", "t3_poll", with_sys=False)
+    add("t3:poll:sys", "t3_poll", with_sys=True)
     for n in (0, 1, 9, 10, 11, 12, 13):
         add("t3:rsp:%d" % n, "t3_rsp", n=n)
     for n in range(1, 8 if tier == "quick" else 10):
@@ -502,6 +536,7 @@ def partitions(tier):
     for f in ("cclen", "ver", "mle", "mlc", "tlv", "fid", "size", "access"):
         add("t4:cc:" + f, "t4_cc", field=f)
     add("t4:nlen", "t4_nlen")
+    add("t4:mle-big", "t4_mle_big")
     for tail in ("wtx", "ack", "gone"):
         add("t4:blocks:%s" % tail, "t4_blocks", nsym=1 if tier == "quick" else 2, tail=tail)
     add("t4:long-read", "t4_long_read")
